@@ -140,6 +140,12 @@ class SyncCrazyflie:
         """ This callback is called form the Crazyflie API when a Crazyflie
         has been connected and the TOCs have been downloaded."""
         logger.debug('Connected to %s' % link_uri)
+        if self._connected not in self.cf.connected.callbacks:
+            # Stale: the link was lost (and our callbacks removed) on another
+            # thread while this call was being delivered. Marking the link
+            # as open now would make close_link() wait for a disconnected
+            # callback that is no longer registered.
+            return
         self._is_link_open = True
         # open_link() clears the attribute as soon as it has been woken up
         connect_event = self._connect_event
